@@ -19,7 +19,8 @@ def main(tier, replay=None):
     if not q:
         # (N4W3S4 from every initial arrangement does not finish in 50 minutes)
         S.model_check(sc.chk, sc.work, "N4W2S3_vary", {"N": 4, "Workers": 2, "Steps": 3, "MaxPn": 12, "VaryInit": True}, INV, PROPS, timeout=3400)
-        S.model_check(sc.chk, sc.work, "N4W3S3_vary", {"N": 4, "Workers": 3, "Steps": 3, "MaxPn": 12, "VaryInit": True}, INV, PROPS, timeout=3400)
+        S.model_check(sc.chk, sc.work, "N4W3S3_vary", {"N": 4, "Workers": 3, "Steps": 3, "MaxPn": 12, "VaryInit": True}, INV, PROPS, timeout=3400,
+                      required=("InitPick", "Complete", "Finish"))       # three steps on three workers: no job is drawn in the loop
         S.model_check(sc.chk, sc.work, "N5W4S3", {"N": 5, "Workers": 4, "Steps": 3, "MaxPn": 14}, INV, PROPS, timeout=3000, required=("InitPick", "Complete", "Finish"))
         S.model_check(sc.chk, sc.work, "N4W2S3_w12", {"N": 4, "Workers": 2, "Steps": 3, "MaxPn": 12, "WSet": "W12"}, INV, PROPS, timeout=3000)
     # liveness: with fair picks and completions the run ends, from every initial arrangement
